@@ -10,7 +10,7 @@ CHECK = {
              'function} x bad value {m, m+1, SIZE_MAX, 2^32 + an in-range value, 2^63 + an in-range value} x {bad for every key, the call\'s key, another element\'s key (relocation '
              'path)} x grow/shrink x 4 table sizes, each cell requiring arrival in the library\'s abort() iff the function '
              'returned an out-of-range value during the call; C: random histories on tables using the built-in functions where '
-             'any abort is a violation; D: 8512 scripted table lives varying HOW the function came to be in force (direct, kept by one or two NULL resizes, passed again, swapped in from another table, across shrink_to_fit, clear + fresh resize, built-in then caller\'s and vice versa; rehash pending or finished) x the call that consults it (resize forcing the rehash, rehash, foreach, shrink_to_fit, insert, find, erase) x 8 kinds of function incl. key % larger-count (in range when installed, out of range for a later smaller count / for the old count still being swept): each call must abort iff a value >= the m it was called with arose. Distinct = input slices and matrix cells in which the bad value arose.'),
+             'any abort is a violation; D: 8512 scripted table lives varying HOW the function came to be in force (direct, kept by one or two NULL resizes, passed again, swapped in from another table, across shrink_to_fit, clear + fresh resize, built-in then caller\'s and vice versa; rehash pending or finished) x the call that consults it (resize forcing the rehash, rehash, foreach, shrink_to_fit, insert, find, erase) x 8 kinds of function incl. key % larger-count (in range when installed, out of range for a later smaller count / for the old count still being swept): each call must abort iff a value >= the m it was called with arose. A6: keys adversarial for multiplicative hashing at any precision x 271 table sizes: all Fibonacci and Lucas numbers < 2^64 with multiples <= 64 and neighbours; +-j * A^-1 mod 2^b (j <= 4096) for 61 fixed-point golden multipliers (64-, 32-, 16-bit constants and floor/ceil(phi*2^b)); continued-fraction record keys of phi at float/double/long double/128-bit precision and of the library\'s literal, scaled into every magnitude 2^20..2^63; a sample lives in real tables (27 cases). Distinct = input slices and matrix cells in which the bad value arose.'),
     'assumptions': ['IEEE-754 single precision, round-to-nearest (the build platform); UBSan float-cast-overflow enabled',
                     'the range sweep is exhaustive over the scale factor only for the keys with the largest observed fractional parts (DESIGN section 7)',
                     'arrival in abort() is observed by link-time interposition (--wrap=abort); ASan red zone directly behind the exact-size bucket array'],
